@@ -1,6 +1,6 @@
 (* PackProofs.v — C05: pack has the sum-of-token-lengths length, composes, rejects wrong arity,
    and unpack inverts it (token level; fixed-length and self-delimiting tokens). *)
-From BS Require Import Prims BitsCore Golomb GolombSpec GolombProofs IntCodec CodecProofs Mutators Search Stream Pack SeqProofs.
+From BS Require Import Prims BitsCore Golomb GolombSpec GolombProofs IntCodec CodecProofs Mutators Search Stream StreamProofs Pack SeqProofs.
 From Coq Require Import ZifyBool.
 Open Scope Z_scope.
 
@@ -256,7 +256,7 @@ Theorem unpack_pack toks vals b : pack false toks vals = Ok b -> all_supported t
   unpack b (map fst toks) = Ok (used_values toks vals).
 Proof.
   unfold pack, unpack, read_dtype_list. destruct (pack_loop toks vals) as [[bs left]|] eqn:Ep; [|discriminate]. cbn [bind].
-  destruct left; [|discriminate]. intros [= <-] Hs Hscan. rewrite Hscan. cbn [bind].
+  destruct left; [|discriminate]. intros [= <-] Hs Hscan. rewrite (scan_tokens_check _ _ _ _ Hscan). cbn [bind]. rewrite Hscan. cbn [bind].
   pose proof (unpack_pack_loop toks vals bs Ep Hs [] [] 0) as R. cbn [app] in R. rewrite app_nil_r in R.
   change (zlen (@nil bool)) with 0 in R. rewrite R. reflexivity.
 Qed.
